@@ -2463,6 +2463,13 @@ func (r *stack) pop() (slice any, ok bool) {
 	r.lock()
 	defer r.unlock()
 
+	// another goroutine may have emptied the
+	// stack since the caller looked; never
+	// hand out (or cut off) the config slice.
+	if r.ulen() == 0 {
+		return
+	}
+
 	var idx int
 
 	if r.isFIFO() {
